@@ -8,6 +8,8 @@ def udp_nontrivial(tok, res):
         return "conns=" in res and not res.startswith("W=;")
     if tok[0] == "cpx":
         return "alive=" in res and not res.startswith("B=;")
+    if tok[0] == "upx":
+        return ";X=" in res and (not res.startswith("B=;") or ";X=0;" not in res)
     if tok[0] == "e2ev":
         return "socks=" in res and not res.startswith("B=;")
     if tok[0] == "batch":
@@ -27,6 +29,9 @@ def udp_class(r):
         n = len(al)
         return "px-conns%s-%s" % ("1" if n == 1 else "2-3" if n <= 3 else "4+",
                                   "allopen" if "0" not in al else "allclosed" if "1" not in al else "someclosed")
+    if r.startswith("B=") and ";X=" in r:
+        x = r.split(";X=", 1)[1].split(";")[0]
+        return "upx-%s-extra%s" % ("data" if not r.startswith("B=;") else "nodata", "0" if x == "0" else "1" if x == "1" else "N")
     if r.startswith("W0="):
         return "batch-w%s" % ("1" if ";W1=" not in r else "N")
     if r.startswith("B="):
@@ -49,7 +54,8 @@ def udp_class(r):
 
 PROP = {
         "level": "proof",
-        "gens": [],
+        "gens": ["UdpWire", "MsgSchema"],
+        "extra_targets": ["Frp.Props.C03Wire"],
         "theorems": [
             "Frp.C03.contentOf_packetOf", "Frp.C03.view_packetOf", "Frp.C03.packetOf_injective",
             "Frp.C03.content_length", "Frp.C03.content_chars",
@@ -85,6 +91,17 @@ PROP = {
             "Frp.C03.px_reply_delivers_despite_others", "Frp.C03.holdsOnPx_sound", "Frp.C03.px_model_safe",
             "Frp.C03.batch_roundtrip", "Frp.C03.batch_independent", "Frp.C03.batch_prefix_stable",
             "Frp.C03.holdsOnBatch_sound",
+            "Frp.C03.buf_read_packet", "Frp.C03.buf_queued_owns_bytes", "Frp.C03.buf_wire_then_queue",
+            "Frp.C03.buf_wire_prefix", "Frp.C03.buf_burst_delivers", "Frp.C03.buf_refines_forwarder",
+            "Frp.C03.buf_byref_witness", "Frp.C03.buf_byref_pingpong_unobservable", "Frp.C03.holdsOnBurst_sound",
+            "Frp.C03.udp_layers_mirror", "Frp.C03.udp_layers_order", "Frp.C03.sudp_layers_mirror",
+            "Frp.C03.udp_layers_are_C01s", "Frp.C03.udp_layers_swapped_iff", "Frp.C03.udp_workconn_transparent",
+            "Frp.C03.toy_layers_lawful", "Frp.C03.udp_layers_swapped_witness",
+            "Frp.C03.holdsOnUpx_sound",
+            "Frp.C03.wire_readers_suit_peers", "Frp.C03.wire_ctl_decodes_empty", "Frp.C03.wire_step_core_or_id",
+            "Frp.C03.wire_backend_only_user_datagrams", "Frp.C03.wire_gen_backend_only_user_datagrams",
+            "Frp.C03.wire_gen_sudp_backend_only_user_datagrams", "Frp.C03.wire_server_ping_witness",
+            "Frp.C03.wire_typed_reader_ignores_ctl",
         ],
         "engines": [
             {"name": "udp", "quick_n": 6000, "thorough_n": 20000, "thorough_seeds": 4,
@@ -115,12 +132,29 @@ PROP = {
                 "frpc sudp proxy, 2-5 users, requests whose answers are held back across the first datagram of another "
                 "visitor; plain / encrypted+compressed) and batch ops (1-6 goroutines each build 2-25 packets with the "
                 "real NewUDPPacket, decode all of them with the real GetContent keeping every result, and the kept results "
-                "are hashed only after all goroutines are done); "
-                "non-trivial = a tunnel / sudp / spx / cpx / e2ev run that delivered something, a batch without error, a frame accepted or rejected, a malformed "
+                "are hashed only after all goroutines are done) and BURSTS on all of these paths: tunnel / e2e / e2es ops "
+                "with g=20..100 (the users send g distinct datagrams back to back - one user, the users in turn, arbitrary "
+                "users, the length changing from datagram to datagram -, the backend keeps its g answers and then sends them "
+                "back to back; e2e with all four encryption x compression settings), runs of 20-100 D tokens (datagrams "
+                "without waiting) and R tokens (replies without waiting) at arbitrary points of sudp and spx scripts, runs "
+                "of 20-100 D tokens and of q tokens followed by `a` (the backend releases the kept answers back to back on "
+                "the per-user sockets of the Forwarder) in cpx scripts; every datagram and every answer of a burst is "
+                "compared by content (length + hash), the expected wire of a burst being computed on the explicit-buffer "
+                "machine UdpBuf; the first four sudp / spx / cpx scripts of a run take the four encryption x compression "
+                "settings in turn; "
+                "upx runs (the real client-side udp proxy - proxy.NewProxy(udp).Run / InWorkConn / Close: its reader, "
+                "sender, heartbeat and Forwarder - with a scripted work connection, the harness playing frps and the backend: "
+                "UDPPackets of 1-3 user addresses, single and in bursts, interleaved with messages of EVERY other type of the "
+                "protocol (Ping with and without fields, Pong, Login…, NatHole…: single, runs of one type, all types in a row, "
+                "before the first and behind the last datagram) and UDPPacket frames without content and address; EVERYTHING "
+                "the backend receives is looked at; a datagram nobody sent is excused only by a message of a type the real "
+                "server end never writes - that set is regenerated from server/proxy/udp.go); "
+                "non-trivial = a tunnel / sudp / spx / cpx / upx / e2ev run that delivered something, a batch without error, a frame accepted or rejected, a malformed "
                 "string that decodes, a non-empty payload; distinct = distinct (op line, result) pairs",
         "trusted": COMMON_TRUST + [
             "models Frp/Model/Base64.lean, Frp/Model/Udp.lean, Frp/Model/Sudp.lean, Frp/Model/UdpSrv.lean, "
-            "Frp/Model/SudpPx.lean written by hand; "
+            "Frp/Model/SudpPx.lean, Frp/Model/UdpBuf.lean (read loop with its reused buffer), Frp/Model/UdpLayers.lean "
+            "(wrapper order at the five sites of the udp / sudp path; Frp/Model/Layers.lean of C01 is only read) written by hand; "
             "tied by the udp engine (real udp.NewUDPPacket/GetContent/ForwardUserConn/Forwarder, msg.WriteMsg/ReadMsg/"
             "ReadMsgInto, visitor.NewVisitor(SUDPVisitorConfig).Run/Close with a scripted visitor.Helper, "
             "server.NewService + a scripted frpc for server/proxy/udp.go, client proxy.NewProxy(SUDPProxyConfig).Run/"
@@ -136,11 +170,34 @@ PROP = {
             "sudp ops: the far side of the visitor connection (frps + sudp proxy) is played by the harness; the light-load "
             "schedule of a script (which datagram opens which connection, which one is consumed by a failing attempt) is "
             "computed by the Lean engine from the model and by the harness from the same rules",
+            "the harness never names the type of msg.UDPPacket.Content: packets are built with udp.NewUDPPacket and read "
+            "with udp.GetContent; a packet with an arbitrary content text is written as a frame by hand (spx / cpx `b` tokens) "
+            "or built through reflection (`dec` op), the content text of a packet is read off the real msg.WriteMsg (`b64` "
+            "op) - a change of the field's representation is observed as behaviour, it does not break the build",
+            "the order of the wrappers on the harness side of spx / sudp / cpx ops is the peer's as the code has it today "
+            "(encryption next to the wire, compression above); the e2e / e2es / e2ev ops have real code at both ends",
+            "translate UdpWire (go/ast, name-based: channels are told apart by their last name within a file; the types that "
+            "flow into a `chan msg.Message` are the composite literals sent into it in that file plus UDPPacket when it is handed "
+            "to udp.Forwarder / udp.ForwardUserConn) regenerates Frp/Gen/UdpWire.lean: message types passed to msg.WriteMsg and "
+            "kind of reader (ReadMsg + type switch / ReadMsgInto) for server/proxy/udp.go Run, client/proxy/udp.go InWorkConn, "
+            "client/proxy/sudp.go InWorkConn, client/visitor/sudp.go worker; Frp/Model/UdpWire.lean (typed stream, both kinds "
+            "of reader) is written by hand, its configuration Frp/Model/UdpWireGen.lean only pairs the generated facts; the "
+            "theorems that depend on the facts are in Frp/Props/C03Wire.lean, which the driver does not import",
+            "upx ops: the frps end of the work connection and the backend are played by the harness; a control message "
+            "of a type other than UDPPacket has no JSON key c / l / r (proved from the regenerated message schema)",
             "tunnel ops re-state the goroutines of server/proxy/udp.go and client/proxy/udp.go that join channels "
             "and work connection in the harness pump; e2e ops run those goroutines themselves (real frps + frpc)",
         ],
         "assumptions": [
             "kernel UDP on loopback; ReadFromUDP cuts a datagram longer than the buffer (Linux)",
+            "a burst of g <= 100 datagrams whose payloads are bounded by 110000/g - 800 bytes fits the default receive "
+            "buffer of the sockets frp opens (208 KiB): back-to-back traffic of that size is not overload (queues hold 1024); "
+            "an op in which something is missing and nothing is wrong is executed again before it is reported (after three "
+            "re-executions in one harness process that came back with something missing again no further op is re-executed: "
+            "a loss that repeats is the implementation's); a frps + frpc pair whose readiness probe never makes the round "
+            "trip is remembered as carrying nothing",
+            "golib crypto (AES-CFB, IV first) and snappy are lawful stream layers (Layers.Lawful, as in C01) - assumed for "
+            "udp_workconn_transparent, sampled by the e2e ops with all four settings",
             "net.IP text form is at most 39 characters, zone at most 15, port < 65536 (AddrOK); "
             "UDPAddr.String() is injective on the addresses that occur (map key of udpConnMap)",
             "reconnect is modelled coarsely: the old Forwarder generation is discarded at once (in Go its "
@@ -166,7 +223,10 @@ PROP = {
 META = {
         "engine": "lean+harness(udp)",
         "design_ref": "DESIGN.md §6 C03",
-        "technique": "Lean 4: base64 round-trip and frame-length arithmetic; labelled transition systems of the "
+        "technique": "Lean 4 + go/ast translator (message types written / kind of reader per end of a UDPPacket connection); "
+                     "base64 round-trip and frame-length arithmetic; the read loop with its reused buffer and the "
+                     "queue behind it as a transition system with a refinement to the value semantics of the other machines; "
+                     "wrapper-order mirror of both ends with the stream-layer algebra of C01; labelled transition systems of the "
                      "UDP forwarding path, the sudp visitor, the server-side work-connection life cycle and the client-side sudp proxy with "
                      "several concurrent work connections, with multiset-conservation, socket-ownership and non-interference "
                      "(frame / projection) theorems proved for "
@@ -213,8 +273,31 @@ META = {
                 "backend write, and at light load a datagram and its reply are carried on connection i whatever the "
                 "other connections do; (7) decoding a batch of packets gives each payload back independently of what "
                 "else is decoded (the kept results of the real GetContent are compared after the whole batch, also "
-                "from several goroutines at once). The models "
-                "are tied to the code by ~5550 ops per quick run against the real functions, the Lean predicate "
+                "from several goroutines at once); (8) a queued packet owns its bytes: the read loops of ForwardUserConn / "
+                "Forwarder.writerFn with their ONE reused read buffer as explicit state and the sender goroutine of the work "
+                "connection serialising later (transition system UdpBuf): for every interleaving of reads and sends, what has "
+                "been serialised followed by what waits in the queue is exactly the sequence of datagrams that found room, "
+                "each as it was when it was read - no later read can change a queued message -, a burst of up to 1024 "
+                "datagrams read before the first is serialised goes out datagram by datagram with its own payload, and the "
+                "queue of this machine is the sendCh of the forwarding machine of (3) (refinement); a machine that enqueues "
+                "buf[:n] by reference instead sends a payload nobody sent on a two-datagram burst (witness) while request / "
+                "reply traffic cannot tell the two apart (theorem); (9) both ends of every connection that carries UDPPackets "
+                "build the same byte-transforming wrapper stack - encryption next to the wire, compression above - for every "
+                "option combination (udp work connection frps / frpc, sudp work connection, sudp visitor connection), with "
+                "any lawful cipher / compression layers frames written at one end are read intact at the other, and the "
+                "swapped order would be understood exactly when at most one of the two options is set (with a concrete "
+                "pair of lawful layers on which it is not); (10) the stream of a connection that carries UDPPackets is "
+                "typed in both directions (transition system UdpWire over the forwarding machine of (3): either end may write a "
+                "message of any type it writes in the source at any point; a reader either switches on the type - Ping ignored, "
+                "other types have no case - or unmarshals whatever arrives into a UDPPacket without looking at the type byte, "
+                "as frpc's readers do): for every interleaving of datagrams, replies and keep-alives of both sides, what the "
+                "backend is handed is a sub-multiset of what the users sent and what the users get is a sub-multiset of what "
+                "the backend sockets answered, PROVIDED every reader suits its peer (an untyped reader's peer writes nothing but "
+                "UDPPacket; a typed reader has a case for everything its peer writes) - which holds for the sets of message "
+                "types REGENERATED from the four sites (frps -> frpc on the udp work connection: UDPPacket only; frpc -> frps: "
+                "UDPPacket, Ping; visitor -> sudp proxy: UDPPacket only; back: UDPPacket, Ping); with a server end that also "
+                "writes Ping one keep-alive hands the backend a zero-length datagram nobody sent (witness). The models "
+                "are tied to the code by ~5650 ops per quick run against the real functions, the Lean predicate "
                 "being evaluated on the implementation's results.",
         "note": "Known finding: udpPacketSize is not validated; above 7605 a single large datagram produces a "
                 "frame the peer rejects (client side: reader goroutine exits, connection stays up, tunnel is "
